@@ -763,6 +763,21 @@ def rule_r11(F):
                 if any((mir.callee(b.blocks[f]["term"]) or "") in relating for f in feeders):
                     guarded = True
                     break
+            if not guarded:
+                # the step may run over a selection of the imports: `for p in paths.iter().filter(|p| !has_to_wait(p)) { self.import(..) }`
+                # - the imported path then comes out of an iterator that a relating closure has filtered
+                clos = {st["p"][0]: st["rv"].get("def") for blk in b.blocks for st in blk["stmts"]
+                        if st["k"] == "assign" and st["rv"]["k"] == "agg" and st["rv"].get("ak") == "closure" and len(st["p"]) == 1}
+                for a in t["args"]:
+                    if not mir.is_place_op(a):
+                        continue
+                    for fb in mir.back_calls(b, defs, a[1][0]):
+                        ft = b.blocks[fb]["term"]
+                        if hir.last(mir.callee_def(ft) or "") not in ("filter", "skip_while", "take_while", "filter_map"):
+                            continue
+                        for fa in ft["args"]:
+                            if mir.is_place_op(fa) and clos.get(fa[1][0]) in relating:
+                                guarded = True
             r.inst("single-import step in %s" % p, {"fn": p, "line": t.get("line"), "conditional_on_the_relation": guarded})
             if not guarded:
                 r.bad(p, "import attempted regardless of the other unresolved imports", relfile(b.file), t.get("line"),
